@@ -443,7 +443,8 @@ def GF(layout, ops, max_io, tier="quick", mem="medium", timeout=2400):
     src = "glue_harness!(%s, %d, {\n    let ops = [%s];\n    let (faulted, io) = run_schema_faults(%s, &ops, %d);\n    kani::cover!(faulted);\n    kani::cover!(!faulted && io >= 2);\n});\n" % (
         name, max(10, len(ops) + 2), ", ".join(_op_rs(o) for o in ops), LAYOUTS[layout][0], max_io)
     GEN_CURSOR.append((name, src))
-    HARNESSES.append(H("reader::reader_cursor::verif_h::" + name, ["C12"], tier=tier, mem=mem, timeout=timeout, kind="H", layer="L3", replay="none",
+    HARNESSES.append(H("reader::reader_cursor::verif_h::" + name, ["C12"], tier=tier, mem=mem, timeout=timeout, kind="H", layer="L3", replay="native",
+                       mode="faultscan", layout=layout, vec_order=["entries"],
                        decides="history [%s] over %s with a source whose k-th seek/load fails (k in 1..=%d and the error kind symbolic): the call in progress "
                                "returns Err(Error::Io(kind)); earlier calls are unaffected; never Ok for the faulted call; no Err without a fault; no panic" % (
                                    ", ".join(ops), LAYOUTS[layout][3], max_io),
@@ -456,7 +457,8 @@ def GSF(layout, forward, max_io, tier="quick", mem="medium", timeout=2400):
     src = "glue_harness!(%s, 10, {\n    let (faulted, io) = step_move_faults(%s, %s, %d);\n    kani::cover!(faulted && io >= 3);\n    kani::cover!(faulted && io == 1);\n    kani::cover!(!faulted && io >= 2);\n});\n" % (
         name, LAYOUTS[layout][0], "true" if forward else "false", max_io)
     GEN_CURSOR.append((name, src))
-    HARNESSES.append(H("reader::reader_cursor::verif_h::" + name, ["C12"], tier=tier, mem=mem, timeout=timeout, kind="S", layer="L3", replay="none",
+    HARNESSES.append(H("reader::reader_cursor::verif_h::" + name, ["C12"], tier=tier, mem=mem, timeout=timeout, kind="S", layer="L3", replay="native",
+                       mode="faultscan", layout=layout, vec_order=["entries"],
                        decides="one %s from EVERY RI-strong cursor state over %s while the k-th seek/load of the source fails (k in 1..=%d, kind symbolic): Err(Io(kind)) "
                                "iff the fault fired during the call, otherwise the adjacent entry; errors raised while reloading a parent index level are not "
                                "swallowed" % ("next" if forward else "prev", LAYOUTS[layout][3], max_io),
@@ -1001,6 +1003,8 @@ def spec_from_vectors(h, vecs):
         lines.append("mode search 6")
     elif mode == "mergesearch":
         lines.append("mode mergesearch")
+    elif mode == "faultscan":
+        lines.append("mode faultscan")
     else:
         lines.append("mode %s %s" % (mode, " ".join(kinds)))
     return "\n".join(lines) + "\n"
